@@ -42,6 +42,7 @@ func runC11(c *Ctx) {
 	fn := f.Function
 	b := ana.NewBuilder(c.P, fn)
 	lenT := "conv<float64>(bin<+>(len(p2), 8))"
+	WS := itoa(int64(c.wordBits())) // bct.MaxBatchSize = bits.UintSize
 
 	// ---- float-to-uint
 	nConv := 0
@@ -180,7 +181,7 @@ func runC11(c *Ctx) {
 	r.Fn(ana.ShortFunc(search))
 	sb := ana.NewBuilder(c.P, search)
 	for _, ce := range sb.CondEdges() {
-		if bd, ok := ana.Match("bin<<>(call<*>($l, $h, p3), 64)", ce.Lit); ok && ce.Taken {
+		if bd, ok := ana.Match("bin<<>(call<*>($l, $h, p3), "+WS+")", ce.Lit); ok && ce.Taken {
 			_ = bd
 			lane = calleeOf(ce.Lit.Arg(0))
 		}
@@ -213,9 +214,9 @@ func runC11(c *Ctx) {
 		et := sb.Of(e.Results[1], e.Instr)
 		if et.Is("nil") {
 			vt := sb.Of(e.Results[0], e.Instr)
-			_, ok := ana.Match("bin<+>(ind<+64>(p2), conv<uint64>(call<*>(_, _, p3)))", vt)
-			hit := plainEdges(edgesMatching(sb, "bin<<>(call<*>(_, _, p3), 64)"))
-			r.Check(ok && mustPass(search, e.Instr.Block(), hit), "C11.nonce-layout.returned-nonce", c.ipos(e.Instr), "returned nonce = batch base (start + 64·k) + lane index, only when the lane test found a lane < 64: %s", short(vt.String(), 160))
+			_, ok := ana.Match("bin<+>(ind<+"+WS+">(p2), conv<uint64>(call<*>(_, _, p3)))", vt)
+			hit := plainEdges(edgesMatching(sb, "bin<<>(call<*>(_, _, p3), "+WS+")"))
+			r.Check(ok && mustPass(search, e.Instr.Block(), hit), "C11.nonce-layout.returned-nonce", c.ipos(e.Instr), "returned nonce = batch base (start + 64·k) + lane index, only when the lane test found a lane < W: %s", short(vt.String(), 160))
 		}
 	}
 	// lane i gets nonce base+i at the digest offset; CopyState after Absorb of exactly 243 trits
@@ -227,7 +228,7 @@ func runC11(c *Ctx) {
 			continue
 		}
 		t := sb.CallTermAt(ci)
-		if _, ok := ana.Match("call<*>(slice(load(iaddr(_, bin<+>(ind<+1>(-1), 1))), call<github.com/iotaledger/iota.go/encoding/b1t6.EncodedLen>(len(p1)), none), bin<+>(ind<+64>(p2), conv<uint64>(bin<+>(ind<+1>(-1), 1))))", t); ok {
+		if _, ok := ana.Match("call<*>(slice(load(iaddr(_, bin<+>(ind<+1>(-1), 1))), call<github.com/iotaledger/iota.go/encoding/b1t6.EncodedLen>(len(p1)), none), bin<+>(ind<+"+WS+">(p2), conv<uint64>(bin<+>(ind<+1>(-1), 1))))", t); ok {
 			fill = true
 			encNonce = cal
 		}
